@@ -268,6 +268,27 @@ STANDIN = {r"no_swallow": RUNMODE_REPLAY, r"no_swallow\[ModelFunction|no_swallow
 TRANSPARENT_CMS = {"warnings.catch_warnings", "np.errstate", "numpy.errstate", "ThreadPoolExecutor", "change_pipeline", "dask.config.set", "tempfile.TemporaryDirectory", "TemporaryDirectory", "SimpleTimer", "ProgressBar", "tqdm", "tqdm.auto.tqdm"}
 
 
+FINALLY_REPLAY = lambda w: {"code": """
+import os, sys, tempfile, pathlib
+import pyxel
+d = pathlib.Path(tempfile.mkdtemp()); os.chdir(d)
+(d / 'c09_yaml_models.py').write_text('def boom(detector, level=0):\\n    raise RuntimeError("detector on fire 4711")\\n')
+sys.path.insert(0, str(d))
+VIOLATED, DETAIL = False, 'a model error reaches the caller of pyxel.run with and without an outputs section'
+TEMPLATE = '\\n'.join(['exposure:', '  readout:', '    times: [1.0]', 'OUTPUTS', 'ccd_detector:', '  geometry:', '    row: 3', '    col: 3', '  environment:', '  characteristics:',
+                       'pipeline:', '  photon_collection:', '    - name: boom', '      func: c09_yaml_models.boom', '      enabled: true', '      arguments:', '        level: 1', ''])
+for with_outputs in (True, False):
+    outputs = '\\n'.join(['  outputs:', '    output_folder: "' + str(d / 'out') + '"', '    save_data_to_file:']) if with_outputs else ''
+    (d / 'cfg.yaml').write_text(TEMPLATE.replace('OUTPUTS', outputs))
+    try:
+        r = pyxel.run(str(d / 'cfg.yaml'))
+        VIOLATED, DETAIL = True, f'outputs section present: {with_outputs}: the model raised, pyxel.run returned {r!r}'; break
+    except RuntimeError as e:
+        if 'detector on fire 4711' not in str(e):
+            VIOLATED, DETAIL = True, f'outputs section present: {with_outputs}: pyxel.run raised another error: {e!r}'; break
+""", "expect": "pyxel.run propagates a model's error whether or not an outputs section is configured"}
+
+
 @unit("C09", "no_swallow")
 def no_swallow(u: Unit):
     """On every path from a model call to the caller of run_mode: no `except` clause that can catch a model's
@@ -300,6 +321,18 @@ def no_swallow(u: Unit):
                             # work done in the handler before the re-raise may itself raise and replace the model's exception: not decided on
                             # the syntax alone -> undecided, the native stand-in (a failure after files were written) decides
                             u.undecide(f"no_swallow.handler_cannot_fail[{fn.qualname.split('::')[1]}:{h.lineno}]", fn.qualname, f"statement in the handler outside the harmless fragment: {odd}")
+                if isinstance(n, ast.Try) and n.finalbody and calls_chain(n.body) is not None:
+                    # a jump out of a `finally` block (return / break / continue) DISCARDS the exception in flight
+                    jumps = []
+                    for st_ in n.finalbody:
+                        loops = [a for a in ast.walk(st_) if isinstance(a, (ast.For, ast.While))]
+                        for m in ast.walk(st_):
+                            if isinstance(m, ast.Return) or (isinstance(m, (ast.Break, ast.Continue)) and not any(m in list(ast.walk(a)) for a in loops)):
+                                jumps.append((type(m).__name__.lower(), m.lineno))
+                    u.functions.setdefault(fn.qualname, {"sha": fn.sha, "file_sha": mi.sha, "paths": 0, "obligations": 0, "role": "under contract"})
+                    u.static(f"no_swallow.finally_does_not_jump[{fn.qualname.split('::')[1]}:{n.lineno}]", not jumps, fn.qualname,
+                             f"finally block of the try at line {n.lineno} around {calls_chain(n.body)}(): " + (f"{jumps} discards the exception in flight" if jumps else "no return / break / continue"),
+                             witness={"function": fn.qualname, "jumps": str(jumps)}, replay=FINALLY_REPLAY)
                 if isinstance(n, ast.With):
                     for it in n.items:
                         src = ast.unparse(it.context_expr)
